@@ -350,6 +350,21 @@ func decorate(r *hx.Rng, s *gq.SchemaDesc, maxLayers int) {
 		o.Fields = append(o.Fields, gq.FieldDesc{Name: "own", Type: wrapDeep(r, r.Pick(outs), maxLayers)})
 		s.Types = append(s.Types, o)
 	}
+	// a chain in which every kind of reference is the only way to a type: Q.viaU2 -> union U2 -> member ViaUnion ->
+	// its interface ViaImpl; ViaUnion.vf(arg: ViaArgIn) -> input field -> enum ViaEnum; ViaImpl.vi -> scalar only
+	if r.Chance(1, 2) {
+		s.Types = append(s.Types,
+			gq.TypeDesc{Kind: "ENUM", Name: "ViaEnum", Values: []gq.EnumValDesc{{Name: "ONE", Internal: 1}, {Name: "TWO", Internal: "two"}}},
+			gq.TypeDesc{Kind: "INPUT_OBJECT", Name: "ViaArgIn", InputFields: []gq.ArgDesc{{Name: "e", Type: wrapDeep(r, "ViaEnum", 3), HasDef: false}, {Name: "n", Type: "Int", HasDef: true, Default: 3}}},
+			gq.TypeDesc{Kind: "INTERFACE", Name: "ViaImpl", ResolveType: true, Fields: []gq.FieldDesc{{Name: "vi", Type: "Int"}}},
+			gq.TypeDesc{Kind: "OBJECT", Name: "ViaUnion", IsTypeOf: true, Interfaces: []string{"ViaImpl"}, Fields: []gq.FieldDesc{
+				{Name: "vi", Type: "Int"},
+				{Name: "vf", Type: "String", Args: []gq.ArgDesc{{Name: "arg", Type: wrapDeep(r, "ViaArgIn", 2)}}}}},
+			gq.TypeDesc{Kind: "UNION", Name: "U2", ResolveType: true, Members: []string{"ViaUnion"}})
+		if q := s.Type(s.Query); q != nil {
+			q.Fields = append(q.Fields, gq.FieldDesc{Name: "viaU2", Type: wrapDeep(r, "U2", 2)})
+		}
+	}
 	// subscription root
 	if r.Chance(1, 4) {
 		sub := gq.TypeDesc{Kind: "OBJECT", Name: "S", Desc: pickDesc(r)}
